@@ -30,8 +30,9 @@ def build():
         'version': 1,
         'setup_cmd': 'python3 -m vlib.gen && python3 -m vlib.manifest --verify',
         'hooks': {
-            'guard': 'bnum_verif',
-            'enable': 'RUSTFLAGS="--cfg bnum_verif" (set by ./check for the harnesses that need the digit-kernel hook); all other harnesses use the unmodified public API through a path dependency on /repo',
+            'guard': 'verif_hooks',
+            'enable': 'cargo feature `verif_hooks` of bnum, enabled by the harness crate (/verif/harness/Cargo.toml: bnum = { path = "/repo", features = [..., "verif_hooks"] }); '
+                      'it only adds `pub mod verif_hooks` (thin public wrappers around the private digit kernels, used by the c02_kernel_hook_* harnesses); every other harness uses the public API',
             'baseline_off_cmd': 'cd /repo && cargo test --workspace --no-fail-fast --offline',
             'source_commits': spec.HOOK_COMMITS,
             'add_only': True,
